@@ -84,6 +84,9 @@ type Impl struct {
 	Userdata    []*lua.LUserData
 	Notes       []string // free-form per-run notes written by extra host functions
 	NoAutoFresh bool     // do not replace the LState after 2000 runs (callers that configure the state themselves)
+	// ShrinkRegistry: before every run a growable registry is cut back to its initial capacity, so
+	// that every run meets the growth steps (a reused state would otherwise grow once and for all)
+	ShrinkRegistry bool
 }
 
 func NewImpl(opts lua.Options, extra func(m *Impl)) *Impl {
@@ -289,6 +292,9 @@ func (m *Impl) runWith(load func(L *lua.LState) (*lua.LFunction, error), budget 
 	}
 	m.Runs++
 	L := m.L
+	if m.ShrinkRegistry {
+		lua.VerifShrinkRegistry(L)
+	}
 	m.ids = map[lua.LValue]string{}
 	m.counts = map[byte]int{}
 	m.events = nil
